@@ -13,7 +13,7 @@ PROP, LEVEL = 'C18', 'exploration'
 
 def make_inputs(tier, seed, wd):
     """valid files with assorted versions / parameter sets; returns list of dict(path, data, doc, version)"""
-    n = 60 if tier == 'quick' else 500
+    n = 100 if tier == 'quick' else 600
     cases = []
     sib_of = {}
     for i in range(n):
@@ -161,7 +161,7 @@ def header_end(doc):
 
 
 def make_tuples(tier, seed, inputs, wd):
-    n = 150 if tier == 'quick' else 2000
+    n = 500 if tier == 'quick' else 3000
     tuples = []
     special_i = 0
     for i in range(n):
